@@ -4,6 +4,7 @@ import SurfProofs.Lemmas.TextWriter
 import SurfProofs.C07
 import SurfProofs.C03
 import SurfProofs.Lemmas.TextChunk
+import SurfProofs.Lemmas.TextRender
 /-!
 # C09 — text writing stays inside its surface, ignores chunking and loses no cell
 
@@ -13,7 +14,7 @@ surface width as maximum width — by `TerminalWriter::put_cell`).
 -/
 namespace SurfProofs.C09
 open SurfModel.Shape SurfModel.Tokenizer SurfModel.TextLayout SurfProofs.Lemmas.TextLayout SurfProofs.Lemmas.TextWriter
-  SurfProofs.Lemmas.TextChunk
+  SurfProofs.Lemmas.TextChunk SurfProofs.Lemmas.TextRender
 
 /-- **C09, layout agrees.** Lay a cell stream out at maximum width `W ≥ 1` and let `(H', W')` be the
 tracked size. Then at every width `W''` with `W' ≤ W'' ≤ W` (in particular at the width of a surface of the
@@ -135,6 +136,38 @@ example : (putCells exWr [⟨Face.dflt, .chr 97⟩, ⟨Face.dflt, .chr 9⟩, ⟨
     (·.touched) = some [6, 11, 7] := by decide
 
 
+/-- **C09, contained (byte writers).** The same for bytes written through `write` of the writer itself or
+of `utf8_writer()` (any automaton, any partition, sessions that end with a decoding error included) and
+for the commands `tty_writer()` decodes (which never panic): the surface is the same view, every offset
+written is an in-window offset of it, every other cell of the backing slice is unchanged. -/
+theorem C09_contained_write {σ : Type} (A : Auto σ) (h w : Nat) (ops : List Op) (wr : Writer)
+    (hs : wr.shape = Shape.chain ops (Shape.from h w)) (hd : wr.data.length = h * w) :
+    (∀ chunks wr' rs, session A putChar wr (uinit A) chunks = .ok (wr', rs) →
+      wr'.shape = wr.shape ∧ ∃ t, wr'.touched = wr.touched ++ t ∧ wr'.data.length = h * w ∧
+        (∀ off ∈ t, off < h * w ∧ ∃ r c, r < wr.shape.height ∧ c < wr.shape.width ∧ off = wr.shape.offset r c) ∧
+        (∀ i, i ∉ t → wr'.data[i]? = wr.data[i]?)) ∧
+    (∀ cmds, ∃ wr', applyCmds wr cmds = some wr' ∧
+      wr'.shape = wr.shape ∧ ∃ t, wr'.touched = wr.touched ++ t ∧ wr'.data.length = h * w ∧
+        (∀ off ∈ t, off < h * w ∧ ∃ r c, r < wr.shape.height ∧ c < wr.shape.width ∧ off = wr.shape.offset r c) ∧
+        (∀ i, i ∉ t → wr'.data[i]? = wr.data[i]?)) := by
+  have hok : ShOk wr.shape wr.data.length := by rw [hs, hd]; exact shOk_chain h w ops
+  have key : ∀ wr', Contained wr wr' → wr'.shape = wr.shape ∧ ∃ t, wr'.touched = wr.touched ++ t ∧
+      wr'.data.length = h * w ∧
+      (∀ off ∈ t, off < h * w ∧ ∃ r c, r < wr.shape.height ∧ c < wr.shape.width ∧ off = wr.shape.offset r c) ∧
+      (∀ i, i ∉ t → wr'.data[i]? = wr.data[i]?) := by
+    intro wr' hc
+    obtain ⟨hsh, t, ht, hdx⟩ := hc
+    refine ⟨hsh, t, ht, by rw [hdx.len, hd], ?_, hdx.frame⟩
+    intro off ho
+    obtain ⟨r, c, hr, hc, rfl⟩ := hdx.inwin off ho
+    have := hok r c hr hc
+    rw [hd] at this
+    exact ⟨this, r, c, hr, hc, rfl⟩
+  refine ⟨fun chunks wr' rs hse => key wr' (session_contained A chunks wr (uinit A) hok wr' rs hse), ?_⟩
+  intro cmds
+  obtain ⟨wr', hp, hc⟩ := applyCmds_contained wr cmds hok
+  exact ⟨wr', hp, key wr' hc⟩
+
 /-! ## chunking -/
 
 /-- **C09, chunking (any sink).** `write` (the loop shared by `impl io::Write for TerminalWriter` and
@@ -210,5 +243,155 @@ example : (match session utf8Auto putChar exWr (uinit utf8Auto) [[0x61, 0xe4], [
     | .ok (w, rs) => some (w.touched, rs) | .error _ => none) = some ([6, 7], [true, true]) := by decide
 example : (match session utf8Auto putChar exWr (uinit utf8Auto) [[0x61, 0xe4, 0xb8, 0x96]] with
     | .ok (w, rs) => some (w.touched, rs) | .error _ => none) = some ([6, 7], [true]) := by decide
+
+
+/-! ## completeness -/
+
+/-- a cell that occupies space on the screen: not one of the three control characters, non-zero size -/
+def isPrintable (ctx : Ctx) : Kind → Bool
+  | .chr c => c ≠ 10 && c ≠ 13 && c ≠ 9 && ctx.width c ≠ 0
+  | k => (k.size ctx).1 ≠ 0 && (k.size ctx).2 ≠ 0
+
+/-- what is written for a text: its cells, a glyph without glyph support replaced by its fallback characters -/
+def written (ctx : Ctx) (t : Text) : List Kind := (t.cells.flatMap (expandCell ctx)).map (·.kind)
+
+theorem isPrintable_classify (ctx : Ctx) (k : Kind) :
+    isPrintable ctx k = match classify ctx k with | .sized _ _ => true | _ => false := by
+  cases k with
+  | chr c =>
+    simp only [isPrintable, classify]
+    by_cases h10 : c = 10
+    · simp [h10]
+    · by_cases h13 : c = 13
+      · simp [h13]
+      · by_cases h9 : c = 9
+        · simp [h9]
+        · by_cases hw : ctx.width c = 0 <;> simp [h10, h13, h9, hw]
+  | image ph pw =>
+    simp only [isPrintable, classify]
+    by_cases hz : (Kind.size ctx (.image ph pw)).1 = 0 ∨ (Kind.size ctx (.image ph pw)).2 = 0
+    · rcases hz with hz | hz <;> simp [hz]
+    · have h1 : (Kind.size ctx (.image ph pw)).1 ≠ 0 := fun h => hz (Or.inl h)
+      have h2 : (Kind.size ctx (.image ph pw)).2 ≠ 0 := fun h => hz (Or.inr h)
+      simp [h1, h2]
+  | glyph gh gw fb =>
+    simp only [isPrintable, classify]
+    by_cases hz : (Kind.size ctx (.glyph gh gw fb)).1 = 0 ∨ (Kind.size ctx (.glyph gh gw fb)).2 = 0
+    · rcases hz with hz | hz <;> simp [hz]
+    · have h1 : (Kind.size ctx (.glyph gh gw fb)).1 ≠ 0 := fun h => hz (Or.inl h)
+      have h2 : (Kind.size ctx (.glyph gh gw fb)).2 ≠ 0 := fun h => hz (Or.inr h)
+      simp [h1, h2]
+
+/-- **C09, text complete.** A wrapping `Text` without carriage returns is laid out under maximum width
+`W ≥ 1` (height not constrained: `hH`) and rendered into a view — any chain of `view` / `transpose` steps —
+whose size is exactly the size `Text::layout` reported. Then rendering does not panic, and there is a list
+of (position, kind) pairs such that: the kinds are exactly the printable cells of the text in order (for a
+glyph without glyph support its fallback characters); the positions are strictly increasing in reading
+order; every pair is shown — the surface holds that kind at that position, inside the view —; and every
+other position of the view holds what it held before. So every printable cell appears exactly once, in
+reading order. -/
+theorem C09_text_complete (ctx : Ctx) (t : Text) (hwr : t.wraps = true) (W maxH : Nat) (hW1 : 1 ≤ W) (hWU : W < U)
+    (hcr : ∀ k ∈ written ctx t, k ≠ .chr 13) (hlen : (written ctx t).length + 1 < U)
+    (hH : (t.layoutRun ctx W).1.sh ≤ maxH)
+    (h w : Nat) (ops : List Op) (data : List Cell) (hd : data.length = h * w)
+    (hsz : ((Shape.chain ops (Shape.from h w)).height, (Shape.chain ops (Shape.from h w)).width) = t.layout ctx maxH W) :
+    let sh := Shape.chain ops (Shape.from h w)
+    ∃ (wr : Writer) (placed : List ((Nat × Nat) × Kind)), t.renderOn ctx sh data = some wr ∧
+      placed.map (·.2) = (written ctx t).filter (isPrintable ctx) ∧
+      (placed.map (·.1)).Pairwise lexLt ∧
+      (∀ q ∈ placed, q.1.1 < sh.height ∧ q.1.2 < sh.width ∧
+        (wr.data[sh.offset q.1.1 q.1.2]?).map Cell.kind = some q.2) ∧
+      (∀ r c, r < sh.height → c < sh.width → (r, c) ∉ placed.map (·.1) →
+        (wr.data[sh.offset r c]?).map Cell.kind = (data[sh.offset r c]?).map Cell.kind) := by
+  intro sh
+  have hks : ((t.cells.flatMap (expandCell ctx)).map (·.kind)) = written ctx t := rfl
+  have hlr : t.layoutRun ctx W = layoutRun ctx W true (written ctx t) LSt.init := by
+    simp only [Text.layoutRun, hwr, written]
+  -- the reported size is the tracked size
+  have hsw : (layoutRun ctx W true (written ctx t) LSt.init).1.sw ≤ W := by
+    rw [layoutRun_eq_run]
+    exact run_col_sw_le W true _ LSt.init (by simp [LSt.init]) (by simp [LSt.init])
+  simp only [Text.layout, hlr, Prod.mk.injEq] at hsz
+  rw [hlr] at hH
+  obtain ⟨hsh, hsww⟩ := hsz
+  have hheight : sh.height = (layoutRun ctx W true (written ctx t) LSt.init).1.sh := by
+    rw [hsh]; exact Nat.min_eq_left hH
+  have hwidth : sh.width = (layoutRun ctx W true (written ctx t) LSt.init).1.sw := by
+    rw [hsww]; exact Nat.min_eq_left hsw
+  obtain ⟨hag, hlen2, hins, hinc, hsome, _⟩ := C09_layout_agrees ctx true (written ctx t) W sh.width hW1 hWU hlen
+    (by rw [hwidth]; exact Nat.le_refl _) (by rw [hwidth]; exact hsw)
+  -- the writer `Text::render` creates
+  have hok : ShOk sh (data.length) := by rw [hd]; exact shOk_chain h w ops
+  obtain ⟨wr, hall, _, _, _, hkinds⟩ := putAllTrue_run { Writer.new ctx sh data with wraps := t.wraps }
+    (t.cells.flatMap (expandCell ctx)) hok
+    (by
+      simp only [Writer.new, hwr, hks, hag]
+      intro p hp
+      have := hins p hp
+      rw [hheight]
+      exact this)
+  simp only [Writer.new, hwr, hks, hag] at hkinds
+  have hrender : t.renderOn ctx sh data = some wr := putCells_of_allTrue _ t.cells wr hall
+  have hinj := SurfProofs.C07.C07_injective h w ops
+  refine ⟨wr, placedOf (layoutRun ctx W true (written ctx t) LSt.init).2 (written ctx t), hrender, ?_, ?_, ?_, ?_⟩
+  · rw [placedOf_snd _ _ (fun k => match classify ctx k with | .sized _ _ => true | _ => false) (hsome rfl)]
+    apply List.filter_congr
+    intro k _
+    exact (isPrintable_classify ctx k).symm
+  · rw [placedOf_fst _ _ hlen2]
+    exact hinc hcr
+  · intro q hq
+    have hq1 : q.1 ∈ (layoutRun ctx W true (written ctx t) LSt.init).2.filterMap id := by
+      rw [← placedOf_fst _ _ hlen2]; exact List.mem_map_of_mem hq
+    have hwin := hins q.1 hq1
+    rw [← hheight] at hwin
+    refine ⟨hwin.1, hwin.2, ?_⟩
+    obtain ⟨l1, l2, hsplit⟩ := List.append_of_mem hq
+    rw [hkinds, hsplit]
+    obtain ⟨qp, qk⟩ := q
+    apply foldK_last sh _ l1 l2 qp qk _ rfl
+    intro x hx heq
+    -- a later cell at the same offset would sit at the same position: excluded by the reading order
+    have hx1 : x.1 ∈ (layoutRun ctx W true (written ctx t) LSt.init).2.filterMap id := by
+      rw [← placedOf_fst _ _ hlen2, hsplit]
+      exact List.mem_map_of_mem (List.mem_append_right _ (List.mem_cons_of_mem _ hx))
+    have hxw := hins x.1 hx1
+    rw [← hheight] at hxw
+    have := hinj x.1.1 x.1.2 qp.1 qp.2 hxw.1 hxw.2 hwin.1 hwin.2 heq
+    have hpw := hinc hcr
+    rw [← placedOf_fst _ _ hlen2, hsplit, List.map_append, List.map_cons, List.pairwise_append] at hpw
+    have hlt := (List.pairwise_cons.mp hpw.2.1).1 x.1 (List.mem_map_of_mem hx)
+    have hxe : x.1 = qp := Prod.ext this.1 this.2
+    rw [hxe] at hlt
+    exact lexLt_irrefl _ hlt
+  · intro r c hr hc hnot
+    rw [hkinds]
+    apply foldK_none
+    intro x hx heq
+    have hx1 : x.1 ∈ (layoutRun ctx W true (written ctx t) LSt.init).2.filterMap id := by
+      rw [← placedOf_fst _ _ hlen2]; exact List.mem_map_of_mem hx
+    have hxw := hins x.1 hx1
+    rw [← hheight] at hxw
+    have := hinj x.1.1 x.1.2 r c hxw.1 hxw.2 hr hc heq
+    apply hnot
+    have hxe : x.1 = (r, c) := Prod.ext this.1 this.2
+    rw [← hxe]
+    exact List.mem_map_of_mem hx
+
+
+/-- the hypotheses are met — the repaired case: a glyph with the seven character fallback `abcdefg` on a
+terminal without glyph support under maximum width 3 reports 3 × 3, and a 3 × 3 window of a 5 × 5
+surface (offset, strided) shows all seven characters -/
+def exCtxNoGlyphs : Ctx := { hasGlyphs := false, ppcH := 1, ppcW := 1, width := fun _ => 1 }
+def exText : Text := { Text.new with cells := [⟨Face.dflt, .glyph 1 2 [97, 98, 99, 100, 101, 102, 103]⟩] }
+def exOps : List Op := [.view (.range 1 4) (.range 1 4)]
+example : exText.wraps = true ∧ (∀ k ∈ written exCtxNoGlyphs exText, k ≠ .chr 13) ∧
+    (written exCtxNoGlyphs exText).length + 1 < U ∧ (exText.layoutRun exCtxNoGlyphs 3).1.sh ≤ 100 ∧
+    ((Shape.chain exOps (Shape.from 5 5)).height, (Shape.chain exOps (Shape.from 5 5)).width)
+      = exText.layout exCtxNoGlyphs 100 3 ∧ exText.layout exCtxNoGlyphs 100 3 = (3, 3) := by decide
+example : (exText.renderOn exCtxNoGlyphs (Shape.chain exOps (Shape.from 5 5)) (List.replicate 25 ⟨Face.dflt, .chr 35⟩)).map
+    (fun w => w.data.map fun c => match c.kind with | .chr c => c | _ => 0)
+    = some [35, 35, 35, 35, 35, 35, 97, 98, 99, 35, 35, 100, 101, 102, 35, 35, 103, 35, 35, 35, 35, 35, 35, 35, 35] := by
+  decide
 
 end SurfProofs.C09
